@@ -22,6 +22,7 @@ DApply(fn, a) ==
       [] fn = "dbl"  -> DMul(DConst(2), a[1])
       [] fn = "inc"  -> DAdd(a[1], DConst(1))
       [] fn = "loopinc" -> DAdd(a[1], DConst(1))
+      [] fn = "dflt" -> DMul(DConst(3), a[1])
       [] fn = "step" -> IF a[1][1] > 2 THEN DConst(1) ELSE DConst(0)
       [] fn = "dsum" -> a[1]
       [] fn = "add"  -> DAdd(a[1], a[2])
